@@ -8,6 +8,7 @@ of the function.  BaseException-only classes are not tracked.
 from __future__ import annotations
 
 import ast
+import copy
 import re
 from dataclasses import dataclass, field
 
@@ -92,8 +93,8 @@ SUPPRESSIONS = [
         "A7",
     ),
     Suppression(
-        "aiomysensors.model.protocol.get_*_message_handler",
-        r"protocol\.Command\(message\.command\)$",
+        "aiomysensors.model.protocol.*",
+        r"protocol\.Command\(\w+\.command\)$",
         S.VE,
         "message.command was validated against protocol.Command by CommandField (received) or the message is one the codec accepts (sent)",
         "command_validated",
@@ -107,6 +108,10 @@ SUPPRESSIONS = [
         "A4",
     ),
 ]
+
+
+def has_await_node(node: ast.AST) -> bool:
+    return any(isinstance(x, (ast.Await, ast.AsyncFor, ast.AsyncWith)) for x in ast.walk(node))
 
 
 class EEA:
@@ -347,22 +352,23 @@ class EEA:
             names = {norm(n) for n in ast.walk(t) if isinstance(n, ast.Attribute)}
             if not names or not names <= {"self._client", "self._incoming_task"}:
                 return False
-        # _connect leaves both attributes set on every normal exit
+        # _connect leaves both attributes set on every normal exit (whatever the shape of its statements)
         c = f.cls
         if c is None:
             return False
         conn = c.find_method("_connect")
         if conn is None:
             return False
-        assigned = set()
-        for st_ in conn.node.body:
-            if isinstance(st_, ast.Return):
-                break
-            if isinstance(st_, ast.Assign) and isinstance(st_.value, ast.Call):
-                for tg in st_.targets:
-                    if isinstance(tg, ast.Attribute) and isinstance(tg.value, ast.Name) and tg.value.id == "self":
-                        assigned.add(tg.attr)
-        return {"_client", "_incoming_task"} <= assigned
+        from .cfg import CFG
+
+        g = CFG(conn.node)
+        for attr in ("_client", "_incoming_task"):
+            stores = [n for n in g.nodes if n.kind == "stmt" and isinstance(n.ast, (ast.Assign, ast.AnnAssign)) and any(isinstance(t, ast.Attribute) and t.attr == attr and isinstance(t.value, ast.Name) and t.value.id == "self" for t in (n.ast.targets if isinstance(n.ast, ast.Assign) else [n.ast.target])) and n.ast.value is not None and not (isinstance(n.ast.value, ast.Constant) and n.ast.value.value is None)]
+            if not stores:
+                return False
+            if g.reach_avoiding([g.entry], lambda x: x is g.exit, lambda x: x in stores, labels_skip=("exc",), from_succ=False) is not None:
+                return False
+        return True
 
     def _premise_command_validated(self, site: Site) -> bool:
         from .rules import codec
@@ -456,6 +462,9 @@ class EEA:
         if isinstance(s, ast.Expr):
             e = self.expr(s.value, st)
             st2 = self._kill_mutations(s, self._kill_on_await(s, st))
+            extra = self._guard_call_facts(s.value, st)
+            if extra:
+                st2 = st2.replace(facts=st2.facts | extra)
             return e, st2
         if isinstance(s, (ast.Assign, ast.AnnAssign, ast.AugAssign)):
             value = s.value
@@ -531,6 +540,58 @@ class EEA:
             e = self.merge(e, self._one("builtins.AssertionError", self.site(fr, s, "assert"), fr))
             return e, st
         raise AnalysisError(f"statement kind {type(s).__name__} not modelled at {fr.module.relpath}:{s.lineno}")
+
+    def _guard_call_facts(self, value: ast.expr, st: St) -> frozenset:
+        """`helper(args)` where helper's body is `if <k> not in <d>: raise ...` (a membership guard extracted into
+        a function): after the call returned normally `<k> in <d>` holds, with the helper's parameters replaced
+        by the arguments and self/cls by the receiver."""
+        call = value.value if isinstance(value, ast.Await) else value
+        if not isinstance(call, ast.Call):
+            return frozenset()
+        fr = st.fr
+        try:
+            targets = self.I.resolve_call(call, fr, facts=st.facts)
+        except AnalysisError:
+            return frozenset()
+        hs = {t.frame.func for t in targets if t.kind == "repo" and t.frame is not None}
+        if len(hs) != 1 or len(targets) != 1:
+            return frozenset()
+        h = next(iter(hs))
+        if has_await_node(h.node):
+            return frozenset()
+        body = list(h.node.body)
+        if body and isinstance(body[0], ast.Expr) and isinstance(body[0].value, ast.Constant):
+            body = body[1:]
+        guards = []
+        for b in body:
+            if isinstance(b, ast.If) and not b.orelse and b.body and isinstance(b.body[-1], ast.Raise) and isinstance(b.test, ast.Compare) and len(b.test.ops) == 1 and isinstance(b.test.ops[0], ast.NotIn):
+                guards.append((b.test.left, b.test.comparators[0]))
+            elif isinstance(b, ast.Return) and (b.value is None or isinstance(b.value, ast.Constant)):
+                continue
+            else:
+                return frozenset()  # anything else could change the containers again
+        if not guards:
+            return frozenset()
+        params = list(h.positional_params)
+        sub: dict[str, ast.expr] = {}
+        if h.cls is not None and not h.is_staticmethod() and params and isinstance(call.func, ast.Attribute):
+            sub[params[0]] = call.func.value
+            params = params[1:]
+        for p_, a in zip(params, call.args):
+            sub[p_] = a
+        for kw in call.keywords:
+            if kw.arg:
+                sub[kw.arg] = kw.value
+
+        class _Sub(ast.NodeTransformer):
+            def visit_Name(self, node):
+                return copy.deepcopy(sub[node.id]) if node.id in sub and isinstance(node.ctx, ast.Load) else node
+
+        out = set()
+        for k, d in guards:
+            k2, d2 = _Sub().visit(copy.deepcopy(k)), _Sub().visit(copy.deepcopy(d))
+            out.add(("in", norm(k2), norm(d2)))
+        return frozenset(out)
 
     def _taint_source(self, value: ast.expr, fr: Frame) -> bool:
         v = value.value if isinstance(value, ast.Await) else value
@@ -1878,7 +1939,9 @@ class EEA:
         if not (isinstance(r.func, ast.Name) and r.func.id == "dict" and len(r.args) == 1 and isinstance(r.args[0], ast.Call)):
             return None
         z = r.args[0]
-        if not (isinstance(z.func, ast.Name) and z.func.id == "zip" and len(z.args) == 2 and norm(z.args[0]) == "self.fields" and isinstance(z.args[1], ast.Name)):
+        from .prov import Canon as _Canon
+
+        if not (isinstance(z.func, ast.Name) and z.func.id == "zip" and len(z.args) == 2 and _Canon(self.I, f, "").canon(z.args[0]) == "self.fields" and isinstance(z.args[1], ast.Name)):
             return None
         lst = z.args[1].id
         guard = False
